@@ -55,9 +55,14 @@ func genC04(dir, tier string, seed int64) {
 		nMat, nGemm, nLin, nSc = 36000, 24000, 9000, 6000
 	}
 	cw := newCaseWriter(dir, "C04_ops", opHeader("CheckC04"), opFooter,
-		"seeded random: MatMul over operand ranks 1..5 (vector.vector, vector.matrix, matrix.vector, stacks with broadcastable and non-broadcastable batch shapes, size-1 matrix dimensions inside a batch, inner extents matching or not); Gemm over M,K,N in 1..3, the 4 transpose combinations, alpha/beta in -2..3 or absent, C in {absent, scalar, (N), (1,N), (M,1), (M,N), (1), (1,1), wrong shapes}; LinearRegressor over 1..3 targets x 1..4 features, intercepts of length targets / 1 / wrong / absent, coefficient count divisible or not; Scaler over ranks 1..3 with offset/scale of length F, 1 or wrong; element types float32 (mostly), float64, int32, int64, uint32, uint64 (half of the integer MatMul cases with operands beyond 2^53 / products that wrap around the type); integer-valued data so that float arithmetic is exact and results are compared exactly", false, 300)
+		"seeded random: MatMul over operand ranks 1..5 (vector.vector, vector.matrix, matrix.vector, stacks with broadcastable and non-broadcastable batch shapes, size-1 matrix dimensions inside a batch, inner extents matching or not); Gemm over M,K,N in 1..3 (1 extent in 12: 5, 8, 9 or 17, also for MatMul), the 4 transpose combinations, alpha/beta in -2..3 or absent, C in {absent, scalar, (N), (1,N), (M,1), (M,N), (1), (1,1), wrong shapes}; LinearRegressor over 1..3 targets x 1..4 features, intercepts of length targets / 1 / wrong / absent, coefficient count divisible or not; Scaler over ranks 1..3 with offset/scale of length F, 1 or wrong; element types float32 (mostly), float64, int32, int64, uint32, uint64 (half of the integer MatMul cases with operands beyond 2^53 / products that wrap around the type); integer-valued data so that float arithmetic is exact and results are compared exactly", false, 300)
 	dts := []tensor.Dtype{tensor.Float32, tensor.Float32, tensor.Float32, tensor.Float32, tensor.Float64, tensor.Int32, tensor.Int64, tensor.Uint32, tensor.Uint64}
-	ext := func() int { return 1 + r.Intn(3) }
+	ext := func() int {
+		if r.Intn(12) == 0 {
+			return []int{5, 8, 9, 17}[r.Intn(4)] // beyond any unrolling factor, not a multiple of it
+		}
+		return 1 + r.Intn(3)
+	}
 	// ---- MatMul ----
 	for c := 0; c < nMat; c++ {
 		d := pick(r, dts)
